@@ -45,7 +45,14 @@ def run(ctx):
         dup = c.get("force_dup", rnd.choice(vs))
         try:
             t_perm = common.reify_type(infer_cases.impl_infer(sh, c["k"]), ct)
-            t_dup = common.reify_type(infer_cases.impl_infer(vs + [dup], c["k"]), ct)
+            if rnd.random() < 0.5:
+                t_dup = common.reify_type(infer_cases.impl_infer(vs + [dup], c["k"]), ct)
+            else:
+                # duplication of the per-value TYPE (the very same type object twice), as when one decoded trace's type
+                # is handed to the merge more than once
+                from monkeytype.typing import get_type, shrink_types
+                tys = [get_type(v, c["k"]) for v in vs]
+                t_dup = common.reify_type(shrink_types(tys + [tys[vs.index(dup)]], c["k"]), ct)
         except Exception as e:
             failures.append({"what": f"inference raised on a permuted / duplicated collection: {type(e).__name__}: {e}; k={c['k']} values={c['vs_repr'][:200]}"})
             continue
